@@ -1,7 +1,6 @@
 from collections import OrderedDict
 from copy import deepcopy
 from importlib import import_module
-from itertools import zip_longest
 
 import regex as re
 
@@ -190,12 +189,13 @@ class LocaleDataLoader:
                 )
             if region is None:
                 region = ""
-            locales = _construct_locales(languages, region)
-            locale_dict.update(
-                zip_longest(
-                    locales, tuple(zip_longest(languages, [], fillvalue=region))
-                )
-            )
+            # a region that some of the languages do not have leaves fewer locales
+            # than languages: derive each locale's language from its own name
+            for locale in _construct_locales(languages, region):
+                lang_reg = LOCALE_SPLIT_PATTERN.split(locale)
+                if len(lang_reg) == 1:
+                    lang_reg.append("")
+                locale_dict[locale] = tuple(lang_reg)
 
         if not use_given_order:
             locale_dict = OrderedDict(
